@@ -31,10 +31,10 @@ ASSUMPTIONS = [
     "reads every spelling back to the same AST before Polar is blamed",
     "ill-formedness of each negative edit is judged against inputparser/syntax.lark by construction of the edit; an edit the oracle's own parser accepts is skipped",
 ]
-TIMEOUT = {"quick": 60, "thorough": 150}
-DEADLINE = {"quick": 110, "thorough": 1500}
+TIMEOUT = {"quick": 30, "thorough": 150}
+DEADLINE = {"quick": 85, "thorough": 1500}
 MIN_DECIDING = {"quick": 60, "thorough": 500}
-NPOS = {"quick": 36, "thorough": 800}
+NPOS = {"quick": 26, "thorough": 800}
 NNEG = {"quick": 260, "thorough": 6000}
 
 STYLES = [
